@@ -43,6 +43,10 @@ P = {
   "For each reader the in-memory source's contents AND dialect are symbolic (index base, declared fill value, integer width / float storage, padding by zeros, repeats or garbage, arbitrary variable/dimension names, 0..360 longitudes); z3 shows that the Grid built by the real reader through the public constructors (incl. format sniffing) has the source's faces in order with the source's corner indices shifted to zero base, padding only at the row end in the single standard fill value and platform integer type, longitudes in [-180,180] congruent mod 360, and that shipped connectivity / centres / distances / areas are carried with the same meaning (MPAS primal and dual role swap).",
   "Readers covered: explicit topology arrays, UGRID, ESMF, MPAS primal+dual, Exodus (single block; coord and coordx/y/z layouts), the shared _replace_fill_values kernel, format sniffing. Not covered in this round (no obligation, a change there is not detected): SCRIP, GEOS-CS, ICON, shapefile/GeoJSON, from_face_vertices, multi-block Exodus, reading bytes from files (C libraries). Bounds: 2 faces <= 4 corners (all padding layouts), node ids < 6, MPAS 2 cells/4 vertices/3 edges. Trusted: symxr as a model of xarray (rename/filter_by_attrs/isel/attrs fall-through), z3.",
   "DESIGN.md §2 C01"),
+ "C19": (True,
+  "Aliasing decided on reference-faithful dataset/array stand-ins with symbolic contents: (i) after Grid.from_topology / Grid.from_dataset(UGRID) and first use, every input buffer, attribute dictionary and the input dataset's variable set equal their snapshots; (ii) after copy(), a public mutator on either side (coordinate setter, normalize_cartesian_coordinates, construct_face_centers, lazy derivation + setter) leaves every observation on the other side unchanged; (iii) after an arbitrary caller edit of the dataset returned by to_xarray('ugrid') (in-place value / connectivity edit, attribute edit, variable deletion) the Grid reports what it reported before.",
+  "Bounds: 2 faces <= 4 corners, nodes < 6, lon in [0,360] (wrap branch), start_index in {0,1}, fill dialects none/-1/standard, int32/int64. Not covered here: chunk() (dask), to_geodataframe/to_polycollection/to_linecollection objects (see C15), list/tuple inputs. Trusted: symxr's sharing semantics (variables shared between a Dataset and the DataArrays it hands out, shallow-copied attrs on assignment, copy-on-assign Dataset.attrs) as a model of xarray's; every model is replayed on real numpy/xarray objects.",
+  "DESIGN.md §2 C19"),
 }
 NA = {
  "C10": "Quantifies over arbitrary compositions of xarray's own operations; whether the grid survives is decided inside xarray/numpy C-level dispatch which symbolic values cannot cross, and there is no bounded uxarray kernel to encode (DESIGN.md §4).",
